@@ -246,6 +246,15 @@ def specs(tier):
                                                A(np.zeros(len(i2), np.int32), "out"), I(len(i2))])
                 yield Call("coverlaps", [A(i1), A(j1), A(l1), I(len(i1)), A(i2), A(j2), A(l2), I(len(i2)), A(np.zeros((3, 2), np.int32), "out"), I(3), I(2),
                                          A(np.zeros(3 * 6, np.int32), "out", lambda r, a: slice(0, 3 * r))])
+        # ALL label-pair sequences of length <= 3 (thorough 4) over labels 1..4, histogram scratch at exact capacity (nt = max + 1)
+        for n in (1, 2, 3) if tier == "quick" else (1, 2, 3, 4):
+            for seq in itertools.product(range(16), repeat=n):
+                li = np.array([q // 4 + 1 for q in seq], np.int32)
+                lj = np.array([q % 4 + 1 for q in seq], np.int32)
+                nt = int(max(li.max(), lj.max())) + 1
+                yield Call("compress_duplicates", [A(li, "io", lambda r, a: slice(0, r)), A(lj, "io", lambda r, a: slice(0, r)),
+                                                   A(np.zeros(n, np.int32), "out", lambda r, a: slice(0, r)), A(np.zeros(n, np.int32), "out", lambda r, a: slice(0, 0)),
+                                                   A(np.zeros(nt, np.int32), "out", lambda r, a: slice(0, 0)), I(n), I(nt)])
         for n in (1, 2, 3, 7, 50):
             for nt_extra in (1, 3):
                 li = ((np.arange(n) * 3) % 4 + 1).astype(np.int32)
